@@ -20,6 +20,8 @@ CLAIMED = {
             "The composition of the stages into 'decode(frame) == original' is argued in DESIGN.md, not machine-checked.", "DESIGN.md 4 C01, Part II"),
     "C02": ("proof", "Inverse pairs as two-contract lemmas on the real encoder/decoder functions (S1 value<->code, H1' block header, H6' sequence count, H7' modes byte, "
             "E3 frame header, E8 literals-header widths), block decision logic (E4) and frame structure incl. reuse and read fragmentation (E5, bounded sizes), "
+            "ES1 (Verus, unbounded, verbatim encode_sequences): the fields handed to the bit writer are exactly the RFC 3.1.1.3.2.1 reading order reversed (initial states, "
+            "extra bits, state updates) plus the padding marker, with each FSE transition taken from the next sequence's state; HU5 (Verus): encode4x split / jump table; "
             "matcher truthfulness (E7V, Verus, unbounded: every reported sequence is a true in-window match and the sequences tile the block), BW1 (Kani, complete over "
             "pending-word states: the BitWriter appends exactly the low bits, LSB first; change_bits/flush/dump keep every other bit). "
             "Whole-pipeline 'decode(compress(x)) == x' is not claimed; libzstd is not consulted.", "DESIGN.md 4 C02"),
